@@ -235,3 +235,14 @@ func SpellLabelRaw(t *rapid.T, l []byte) string {
 	}
 	return sb.String()
 }
+
+// Rarely is true with probability 2^-bits. (rapid's integer generators are biased towards small
+// values, so "IntRange(0, n) == 0" is far more frequent than 1/(n+1); coin flips are not biased.)
+func Rarely(t *rapid.T, bits int) bool {
+	for i := 0; i < bits; i++ {
+		if !rapid.Bool().Draw(t, "rare") {
+			return false
+		}
+	}
+	return true
+}
